@@ -30,7 +30,7 @@ CLAIMED['C14'] = ("reference-model monitor: exact rational shoelace area/centroi
   "tolerance 1e-9*M (M^2 for area) from the property statement; NaN fails every comparison", "DESIGN.md §3 C14")
 CLAIMED['C09'] = ("reference-model monitor: exact arrangement-based intersects and exact rational minimum distance compared with Intersects/Distance, cross-implementation consistency with Relate-derived Disjoint, Intersection and envelope distance",
   "Exploration by runtime monitoring: generated operand pairs over all 8x8 operand kinds (half of them separated by a lattice translation so that Distance takes its best-first search path), clustered collections and triples are evaluated by the library and by the exact oracle; every call's symmetry, definedness, zero-iff-intersects, envelope bound and triangle inequality are checked on the same executions.",
-  "distance tolerance 1e-11*max(1,M); near-degenerate pairs below the clearance bound excluded and counted", "DESIGN.md §3 C09")
+  "distance tolerance 1e-13*max(1,M); near-degenerate pairs below the clearance bound excluded and counted", "DESIGN.md §3 C09")
 CLAIMED['C15'] = ("reference-model monitor: Boundary compared as a point set with the exact locate()=B set on every arrangement cell; PointOnSurface located exactly; structural monitors for collections and dimension",
   "Exploration by runtime monitoring: generated valid geometries of every type plus targeted families (narrow comb polygons, rectangles whose envelope-centre row hits a vertex with holes above/below, multilinestring junctions) are passed to Boundary, PointOnSurface, Dimension and IsEmpty, and each result is judged by the exact interior/boundary model.",
   "exact locate per OGC mod-2 rule; collections judged structurally", "DESIGN.md §3 C15")
